@@ -1,0 +1,31 @@
+//! Verification-only hooks (compiled only with `--cfg penguin_rs_verif`).
+//!
+//! Deterministic simulation needs every source of randomness behind a seam. The convenience
+//! constructors `Multiplexor::new` / `new_with_opt` seed their flow-id generator from the
+//! operating system; under the guard they draw the seed from a per-thread counter that the
+//! simulation harness sets at the start of each run.
+//
+// SPDX-License-Identifier: Apache-2.0 OR GPL-3.0-or-later
+
+use core::cell::Cell;
+
+std::thread_local! {
+    static SEED: Cell<u64> = const { Cell::new(0x5eed_0000_0000_0001) };
+}
+
+/// Set the seed from which the following flow-id generators on this thread are derived.
+pub fn set_seed(seed: u64) {
+    SEED.with(|s| s.set(seed));
+}
+
+/// Next generator seed on this thread (splitmix64 step).
+#[must_use]
+pub fn next_seed() -> u64 {
+    SEED.with(|s| {
+        let mut z = s.get().wrapping_add(0x9E37_79B9_7F4A_7C15);
+        s.set(z);
+        z = (z ^ (z >> 30)).wrapping_mul(0xBF58_476D_1CE4_E5B9);
+        z = (z ^ (z >> 27)).wrapping_mul(0x94D0_49BB_1331_11EB);
+        z ^ (z >> 31)
+    })
+}
